@@ -155,8 +155,12 @@ func (c *Case) contentType() string {
 }
 
 func (c *Case) script() script {
+	maxRecv := len(c.Msgs) + 4
+	if c.Shape == "upload" && len(c.Msgs) > 0 {
+		maxRecv = len(c.Msgs[0]) + 4 // chunks may be of any non-zero size
+	}
 	return script{Echo: c.Echo, Reply: c.Reply, Final: c.Final, FinalMsg: c.FinalMsg,
-		Reader: c.Codec == "httpbody-reader", Writer: c.Codec == "httpbody-writer", MaxRecv: len(c.Msgs) + 4, StopAfter: c.StopAfter}
+		Reader: c.Codec == "httpbody-reader", Writer: c.Codec == "httpbody-writer", MaxRecv: maxRecv, StopAfter: c.StopAfter}
 }
 
 // wantMsgs is the message sequence the handler is meant to receive.
@@ -517,6 +521,18 @@ func (e *env) judge(c *Case, s snapshot, co *cobs, clientSaw bool) (vs []viol, o
 		return vs, outcome
 	}
 
+	e.r.Count("handler_recv_events", len(s.recv))
+	e.r.Count("handler_send_events", len(s.sent))
+	if s.recvEnd {
+		e.r.Count("handler_terminal_events", 1)
+	}
+	if co != nil && clientSaw {
+		e.r.Count("client_messages_decoded", len(co.msgs))
+		if co.hasStatus {
+			e.r.Count("client_final_statuses", 1)
+		}
+	}
+
 	// ---- handler side: receive sequence and terminal event
 	switch {
 	case c.Shape == "ssget" || c.Shape == "download":
@@ -543,6 +559,9 @@ func (e *env) judge(c *Case, s snapshot, co *cobs, clientSaw bool) (vs []viol, o
 		}
 	case c.Shape == "upload":
 		upload := c.sentBody()
+		if c.CE != "" {
+			upload = c.Msgs[0] // the body is the encoded form
+		}
 		L := c.Limit
 		if L == 0 {
 			L = 4 << 20
